@@ -37,7 +37,7 @@ def gen(tier, rng):
     n = 2500 if tier == "quick" else 50000
     for _ in range(n):
         kind = rng.choice(["probe", "probe", "probe", "probe", "family", "ec"])
-        nd = rng.choice([1, 2, 2, 3, 3, 4]) if kind == "probe" else rng.choice([2, 3])
+        nd = rng.choice([1, 2, 2, 3, 3, 4]) if kind == "probe" else (rng.choice([1, 2, 2, 3]) if kind == "ec" else rng.choice([2, 3, 3]))
         shape = [rng.choice([4, 5, 6, 8]) for _ in range(nd)]
         A, groups = _blocks(rng, nd)
         b = [rng.randrange(-3, 4) for _ in range(nd)]
@@ -62,21 +62,22 @@ def gen(tier, rng):
                     v = v + Fr(1, 8)
                 pix.append([v.numerator, v.denominator])
             pts.append(pix)
-        form = rng.choice(["values_float_units", "values_quantity", "values_quantity_km", "objects", "objects"])
+        form = rng.choice(["values_float_units", "values_float_km", "values_quantity", "values_quantity_km", "objects", "objects"])
+        all_none = rng.random() < 0.04
         bad = rng.choice([None] * 12 + ["short", "wrongclass", "badunit", "unitlen"])
         keepdims = rng.random() < 0.5
-        fam = rng.choice(["tan", "rot"]) if kind == "family" else None
+        fam = rng.choice(["tan", "rot"] + (["tan_split"] if nd >= 3 else [])) if kind == "family" else None
         tabs = []
         if kind == "ec":
             for t in range(rng.choice([1, 2])):
                 tabs.append([rng.randrange(nd), rng.choice([1, 2, 3]), rng.randrange(0, 5)])
-        key = f"{kind}|{fam}|{shape}|{A}|{b}|{pts}|{none_groups}|{form}|{bad}|{keepdims}|{tabs}"
+        key = f"{kind}|{fam}|{shape}|{A}|{b}|{pts}|{none_groups}|{form}|{bad}|{keepdims}|{tabs}|{all_none}"
         cases.append({"key": key, "stratum": kind if not bad else "malformed", "kind": kind, "fam": fam, "shape": shape, "A": A, "b": b,
-                      "groups": groups, "none_groups": none_groups, "pts": pts, "form": form, "bad": bad,
+                      "groups": groups, "none_groups": none_groups, "pts": pts, "form": form, "bad": bad, "all_none": all_none,
                       "keepdims": keepdims, "tabs": tabs, "wcsname": rng.choice(["extra_coords", "combined_wcs"]) if kind == "ec" else "wcs",
                       "nontrivial": True,
                       "show": {"wcs": kind, "family": fam, "shape": shape, "A": A, "b": b, "pixel_positions_of_points": pts,
-                               "groups_left_None": none_groups, "form": form, "malformed": bad, "keepdims": keepdims, "extra_coords": tabs}})
+                               "groups_left_None": "ALL" if all_none else none_groups, "form": form, "malformed": bad, "keepdims": keepdims, "extra_coords": tabs}})
     return cases
 
 
@@ -134,6 +135,9 @@ def run(case):
                        if tuple(pg) in ng or (case["fam"] and len(ng) and pg == pix_groups[-1] and len(pix_groups) > 1)]
     touched_pix = lambda g: pix_groups[world_groups.index(g)]
     none_w = {w for g in none_groups for w in g}
+    if case.get("all_none"):
+        none_w = set(range(ll.world_n_dim))
+        none_groups = list(world_groups)
     units = list(ll.world_axis_units)
     form, bad = case["form"], case["bad"]
 
@@ -144,6 +148,8 @@ def run(case):
                 comps_.append(None)
             elif form == "values_float_units" and not as_objects:
                 comps_.append(float(v))
+            elif form == "values_float_km" and not as_objects:
+                comps_.append(float(v) / 1000.0 if units[i] == "m" else float(v))
             elif form == "values_quantity_km" and not as_objects and units[i] == "m":
                 comps_.append((float(v) / 1000.0) * u.km)
             else:
@@ -175,6 +181,8 @@ def run(case):
             kwargs["wcs"] = wcs_obj
         if not use_objects and form == "values_float_units":
             kwargs["units"] = [uu for uu in units]
+        if not use_objects and form == "values_float_km":
+            kwargs["units"] = ["km" if uu == "m" else uu for uu in units]
         if bad == "short":
             pts = [p[:-1] for p in pts] if len(pts[0]) > 1 else [p + [None] for p in pts]
         elif bad == "wrongclass" and use_objects:
@@ -244,6 +252,16 @@ def run(case):
                 if on_array and sel != list(range(min(v), max(v) + 1)):
                     why.append(f"axis {a}: region {sel} is not [min, max] = [{min(v)}, {max(v)}] of the points' nearest-pixel indices")
             for a in range(nd):
+                v = per_axis[a]
+                onv = [i for i in v if 0 <= i < shape[a]]
+                if not onv:
+                    continue
+                lo, hi = max(min(v), 0), min(max(v), shape[a] - 1)
+                if lo == hi and not kd and isinstance(item[a], slice):
+                    why.append(f"axis {a}: the region is one element long but the axis was kept although keepdims=False")
+                if (kd or lo != hi) and not isinstance(item[a], slice):
+                    why.append(f"axis {a}: axis dropped although {'keepdims=True' if kd else 'the region is longer than one element'}")
+            for a in range(nd):
                 if not per_axis[a] and not (isinstance(item[a], slice) and item[a] == slice(None)):
                     why.append(f"axis {a} has only None coordinates but was narrowed to {item[a]}")
             if not why and on_array:
@@ -256,7 +274,7 @@ def run(case):
 
 
 def coq_case(case, res):
-    TRIV = "mk (C14_corr.WLin [] [] [] [] [] None None) 0%nat [] false (OItem [])"
+    TRIV = "mk (C14_corr.WLin [] [] [] [] [] None None) [] [] false (OItem [])"
     if case["kind"] != "probe" or case["bad"] is not None or case["form"] == "objects":
         return TRIV
     o = res["out"]
@@ -265,4 +283,4 @@ def coq_case(case, res):
                        "tw": list(range(nd)), "tp": list(range(nd))})
     pts = Q.lst([Q.lst(["None" if x is None else f"(Some {c14._cq(x)}%Q)" for x in w]) for w in res["world"]])
     impl = f"(OErr {Q.err(o['e'])})" if o["t"] == "err" else f"(OItem {Q.lst(o['item'], Q.coq_item)})"
-    return f"mk {e} {Q.nat(nd)} {pts} {Q.b(case['keepdims'])} {impl}"
+    return f"mk {e} {Q.lst(case['shape'], Q.z)} {pts} {Q.b(case['keepdims'])} {impl}"
